@@ -389,6 +389,12 @@ func mix(name string, xs ...float64) float64 {
 }
 
 func Summarise_(fn string) {}
+// AssertNoRaces: under the engine, the recorded memory footprints of distinct goroutine
+// instances must not conflict.  Natively the replay binary is built with -race, so a real race
+// makes the run fail by itself.
+func AssertNoRaces(label string) {}
+func GlobalWrites() int          { return 0 }
+func JoinBalance() int           { return 0 }
 func LogStart()              {}
 func LogStop()               {}
 func Summarise(fn string)    {}
